@@ -4,19 +4,19 @@ CONSTANTS MinReq = 2
  MaxPrios = 1000
  SortInput = TRUE
  N = 3
- Real = {1, 2}
+ Real = {1}
  Slots = {1}
- ExT = 2
+ ExT = 1
  SlotLen = 0
- DLOff = 3
+ DLOff = 2
  LocalProtocols <- LP
  LocalProposals <- LP
  V2Versions = {"v2", "v3"}
- DupPolicy = "first"
- MaxTime = 3
+ DupPolicy = "last"
+ MaxTime = 2
  MaxInject = 1
  Malformed = FALSE
  Lossy = TRUE
  WithDecide = TRUE
-INVARIANTS Safety NoAbort FullExchangeAgree
+INVARIANTS FirstWins
 CHECK_DEADLOCK FALSE
